@@ -13,8 +13,8 @@ def register(PROPS):
                  'the last), written as one EXDATE list (ascending and descending), as one EXDATE line per instant (both orders) or combined with '
                  'one of 5 DTSTART-synchronised EXRULEs, crossed with every subset of a 3-instant RDATE universe (one list or one line each), is '
                  'parsed by the real parser and the task stream is popped to its end; the delivered starts are compared with '
-                 '(rule instances u RDATE) minus the instants equal to an exception.  Complete within that bound.',
-        'note': 'Exception lists longer than 11, TZID-local values, RDATE before DTSTART and EXRULEs not synchronised with DTSTART are outside.  '
+                 '(rule instances u RDATE) minus the instants equal to an exception.  A second driver (c02_zonemix) writes every subset of up to 4 (thorough 5) exception instants of an HOURLY;INTERVAL=4 event with EVERY assignment of a written form to each value (UTC with Z, or local time of Asia/Tokyo, America/Phoenix, Asia/Kolkata via TZID), so lists whose raw values order differently from their instants are covered.  Complete within that bound.',
+        'note': 'Exception lists longer than 11, TZID values of zones with DST transitions, RDATE before DTSTART and EXRULEs not synchronised with DTSTART are outside.  '
                 'The property quantifies over durations that do not reach the next occurrence; the events of the enumeration whose duration does '
                 '(the all-day daily event lasting one day; a mid-gap RDATE with a duration of gap/2 or more) are judged by the same start-equality '
                 'oracle but carry the duration class dur>=gap in their signatures and are not counted as non-trivial.  '
